@@ -18,6 +18,8 @@ Monitors on the IMPLEMENTATION ALONE (a hit is a violation with the replayable p
       header hash) is identical in all configurations;
   M4  every single-field mutation of the header / payset is rejected;
   M5  after the block is added to A (validated delta) and to B (own evaluation) both ledgers hold the same state;
+  MP  (thorough tier) blocks taken from the REAL TransactionPool.AssembleBlock after Remember / re-evaluation are accepted by
+      Ledger.Validate, twice, with identical deltas (harness/data/pools/zz_verif_c20pool_test.go);
   M6  header arithmetic: payset size, txn counter and fees collected equal what the accepted groups imply; the producer's
       payout equals min(pct·fees/100 + bonus, fee sink balance − min balance) and the finished block's payout is ≤ it.
 Correspondence with the model (driver `c20`): rewards state + pool withdrawal at block start, every group, the derived header
@@ -309,6 +311,69 @@ def run(ctx, replay_ops=None):
     if notes.get("order-only"):
         ctx.notes.append("%d validated deltas equal the model's up to record order" % notes["order-only"])
 
+    # 3. producer side with the real TransactionPool (its link step alone costs about a minute: thorough tier, or whenever the
+    #    proof / tie is broken and a failing input is being searched for)
+    if replay_ops is None and (ctx.tier == "thorough" or not proved or ctx.tie_failures or os.environ.get("VERIF_C20_POOL")):
+        run_pool(ctx)
+
+
+def pool_monitor(ops, impl):
+    """producer side (the real TransactionPool): every AssembleBlock result is accepted by Ledger.Validate, twice, identically"""
+    for i, (o, a) in enumerate(zip(ops, impl)):
+        if a.startswith("PANIC"):
+            return i, "the implementation panicked: " + a[:200]
+        if o.startswith("reset") and a != "ok":
+            return i, "ledger / pool could not be created: " + a[:200]
+        if o.startswith("asm") or o == "skip":
+            if not a.startswith("ok "):
+                return i, "a block assembled by the real TransactionPool.AssembleBlock is not accepted by Ledger.Validate: " + a[:300]
+            d = kv(a)
+            if "x" in d and d["x"] != d.get("y"):
+                return i, "two validations of the same assembled block gave different state deltas (%s vs %s)" % (d["x"], d.get("y"))
+    return None
+
+
+def run_pool(ctx, replay_ops=None):
+    """tie C, producer side: harness/data/pools/zz_verif_c20pool_test.go (TestVerifC20Pool); implementation-only monitor"""
+    env = {}
+    if replay_ops is not None:
+        rp = os.path.join(ctx.work, "c20pool.replay")
+        open(rp, "w").write("\n".join(replay_ops) + "\n")
+        env["VERIF_REPLAY"] = rp
+    rc, out = ctx.go_test("./data/pools", "TestVerifC20Pool", env=env, timeout=3600)
+    opsf, implf = os.path.join(ctx.work, "c20pool.ops"), os.path.join(ctx.work, "c20pool.impl")
+    if rc != 0 or not os.path.exists(opsf):
+        ctx.tie_failures.append("harness ./data/pools TestVerifC20Pool failed to run (rc=%d): %s" % (rc, out[-600:]))
+        return
+    ops, impl = ctx.read_lines(opsf), ctx.read_lines(implf)
+    dist = ctx.cov["distribution"]
+    for o, a in zip(ops, impl):
+        k = "pool:" + o.split(" ", 1)[0] + ":" + a.split(" ", 1)[0]
+        dist[k] = dist.get(k, 0) + 1
+    asm = [(o, a) for o, a in zip(ops, impl) if o.startswith("asm")]
+    ctx.cov["evaluations"] += 2 * len(asm)
+    ctx.cov["distinct_nontrivial"] += len({a for _, a in asm if " payset=0 " not in a})
+    # cases
+    start = 0
+    hits = 0
+    for i in range(len(ops) + 1):
+        if i == len(ops) or (ops[i].startswith("reset") and i > start):
+            hit = pool_monitor(ops[start:i], impl[start:i])
+            if hit and hits < 3:
+                hits += 1
+                idx, msg = hit
+                ctx.violation("monitor (producer = real TransactionPool): " + msg,
+                              {"kind": "monitor", "ops": ops[start:start + idx + 1], "impl_out": impl[start + idx][:2000],
+                               "harness": {"pkg": "./data/pools", "test": "TestVerifC20Pool", "name": "c20pool"}}, found_input=True)
+            start = i
+    dist["pool:monitor-hits"] = hits
+
 
 def replay(ctx, path):
-    common.std_replay(ctx, path, run)
+    import json
+    r = json.load(open(path))
+    if (r.get("harness") or {}).get("name") == "c20pool":
+        ctx.overlay()
+        run_pool(ctx, replay_ops=r.get("ops"))
+    else:
+        run(ctx, replay_ops=r.get("ops"))
